@@ -1,5 +1,7 @@
 import PrysmVerif.Generated.C01
 import PrysmVerif.Lemmas.C01Fourier
+import PrysmVerif.Lemmas.C01Param
+import PrysmVerif.Lemmas.PyArith
 import PrysmVerif.Lemmas.C01Cache
 import PrysmVerif.Lemmas.C01Exp
 /-!
@@ -13,8 +15,13 @@ derived).  `nrm : R → K` (read `√·`) is completely arbitrary.  The last sec
 
 Every theorem quantifies over ALL shapes `(m, n)`, output sizes `(M, N)`, per-axis `Q`, shifts, inputs and (where
 relevant) FFT lengths `≥ n + M − 1`; nothing is bounded.  Theorems named `gen_*` have a definition regenerated from
-the current prysm source as their subject; the property theorems below them are stated over those generated
-definitions.  Array results are read with `rd2`; sizes are positive where a hypothesis says so.
+the current prysm source as their subject.  The property theorems are stated over the PARAMETERISED routes of the model
+(`czt2G`, `iczt2G`, `mdft2G`, `fftRoute2G`) applied to the generated values: wiring records, index glue, chirp constants /
+exponent scalars / norms (rational functions), chirp and shift signs (`cztSignsGen`), the order of the statements of `czt2`
+(`cztStagesGen`), kernel sign and `fwd` flags of the matrix DFT, shift order / norm / transform of `focus` and `unfocus`
+(`focusFlagsGen`, `unfocusFlagsGen`), pad offset, FFT-length arguments, cache key / read lists, and the `Q` / shift
+conversions of the fixed-sampling dispatch (`ffsQ`, `ffsShift*`, `ufsQ`, …).  Each `gen_*` theorem is consumed by at least
+one property theorem.  Array results are read with `rd2`; sizes are positive where a hypothesis says so.
 -/
 set_option linter.unusedTactic false
 set_option linter.unreachableTactic false
@@ -44,10 +51,12 @@ theorem gen_czt_ranges (n M L : Nat) :
   constructor <;> simp only [cztJ1Hi, cztJ2Hi, cztGlueGen, cztGlue, cztStart, cen] <;> omega
 
 /-- the shift is subtracted from the output AND the input coordinate vector; chirps `a`, `b` are `exp(−iπαx²)`, the
-kernel is `exp(+iπαj²)`; `b` carries `√α`; `H = fft(h)` -/
-theorem gen_czt_signs :
-    cztShiftSignOut = -1 ∧ cztShiftSignIn = -1 ∧ cztChirpSignA = -1 ∧ cztChirpSignB = -1 ∧ cztChirpSignH = 1 ∧
-    cztNormIsSqrtAlphaOnB = true ∧ cztReturnsFftOfH = true := by decide
+kernel is `exp(+iπαj²)` (consumed by `czt_eq_mdft`: with any other sign pattern the Bluestein identity fails) -/
+theorem gen_czt_signs : cztSignsGen = cztSignsRef := by decide
+
+/-- `czt2` multiplies by `b` before `fft2`, by `H` between `fft2` and `ifft2`, crops to `[:M,:N]`, then multiplies by `a`
+(consumed by `czt_eq_mdft`, whose subject interprets this list) -/
+theorem gen_czt_stages : cztStagesGen = cztStagesRef := by decide
 
 /-- `czt2/_setup_bases`: the row basis is built from `shape[0], samples_out[0], shift[1]`, the column basis from
 `shape[1], samples_out[1], shift[0]`; `fft2` is taken at `(K, L)` = (row length, column length) -/
@@ -64,10 +73,6 @@ theorem gen_czt_fftlen (m n M N : Int) :
     cztRowFftLenArg m n M N = m + M - 1 ∧ cztColFftLenArg m n M N = n + N - 1 := by
   constructor <;> simp only [cztRowFftLenArg, cztColFftLenArg] <;> omega
 
-/-- `czt2` multiplies by `b` before `fft2`, by `H` between `fft2` and `ifft2`, crops to `[:M,:N]`, then multiplies by
-`a`; `iczt2 = conj ∘ czt2 ∘ conj` -/
-theorem gen_czt_pipeline : cztPipelineIsBluestein = true ∧ icztIsConjCztConj = true := by decide
-
 /-- everything `ChirpZTransformExecutor._setup_bases` reads while building is part of the cache key -/
 theorem gen_czt_reads_subset_key : ∀ r ∈ cztBuildReads, r ∈ cztKeyFields := by decide
 
@@ -75,9 +80,9 @@ theorem gen_czt_reads_subset_key : ∀ r ∈ cztBuildReads, r ∈ cztKeyFields :
 theorem gen_mdft_reads_subset_key : ∀ r ∈ mdftBuildReads, r ∈ mdftKeyFields := by decide
 
 /-- `Eout` is built from `shape[0], samples[0], shift[1]`, `Ein` from `shape[1], samples[1], shift[0]`; the forward
-kernel has the minus sign in both; `dft2` asks for the forward bases, `idft2` for the inverse ones -/
+kernel has the minus sign in both factors; `dft2` asks for the forward bases, `idft2` for the inverse ones -/
 theorem gen_mdft_wiring :
-    mdftEoutWiring = wiringAxis0 ∧ mdftEinWiring = wiringAxis1 ∧ mdftFwdSign = -1 ∧ mdftFwdSignEin = -1 ∧
+    mdftEoutWiring = wiringAxis0 ∧ mdftEinWiring = wiringAxis1 ∧ mdftFwdSign = -1 ∧ mdftFwdSignEin = mdftFwdSign ∧
     mdftDft2IsFwd = true ∧ mdftIdft2IsFwd = false := by decide
 
 /-- the exponent scalars are `1/(m·Q[0])` and `1/(n·Q[1])`; `Ein` is scaled by `√alphay`, `Eout` by `√alphax`, so the
@@ -88,48 +93,37 @@ theorem gen_mdft_scale (m n : Nat) (Q0 Q1 : R) :
   refine ⟨?_, ?_, ?_, ?_⟩ <;>
     simp [mdftEoutScale, mdftEinScale, mdftEinNormSq, mdftEoutNormSq, alphaOf] <;> ring
 
-/-- `pad2d` (constant mode) writes the data at `[N//2 − n//2, N//2 − n//2 + n)`; default output length `⌈n·Q⌉` -/
+/-- `pad2d` (constant mode) writes the data at `[N//2 − n//2, N//2 − n//2 + n)` -/
 theorem gen_pad_offset (n N : Nat) :
     padLo (n : Int) (N : Int) = padOffset n N ∧ padHi (n : Int) (N : Int) = padOffset n N + n := by
   constructor <;> simp only [padLo, padHi, padOffset, cen] <;> omega
 
-/-- `focus` is `fftshift(fft2(ifftshift(pad2d(x, Q)), norm='ortho'))`, `unfocus` the same with `ifft2` -/
-theorem gen_fft_route_shape :
-    focusOuterIsFftshift = true ∧ focusInnerIsIfftshift = true ∧ focusUsesOrtho = true ∧ focusTransform = "fft2" ∧
-    focusPadsWithPad2dQ = true ∧
-    unfocusOuterIsFftshift = true ∧ unfocusInnerIsIfftshift = true ∧ unfocusUsesOrtho = true ∧
-    unfocusTransform = "ifft2" ∧ unfocusPadsWithPad2dQ = true := by decide
+/-- the default padded length of `pad2d(x, Q)` (hence of `focus(x, Q)`) is `⌈n·Q⌉` -/
+theorem gen_pad_outlen (n Q : Rat) : padOutLen n Q = ((⌈n * Q⌉ : Int) : Rat) := by
+  simp only [padOutLen, Rat.ceil_eq_intCeil]
 
-/-- `focus_fixed_sampling` / `unfocus_fixed_sampling` hand the same `ary, Q, samples_out, shift` to the matrix-DFT and to
-the chirp-Z engine (the choice of `method` changes the engine only) -/
-theorem gen_dispatch_same_args :
-    focus_fixed_samplingEnginesGetSameArgs = true ∧ unfocus_fixed_samplingEnginesGetSameArgs = true := by decide
+/-- `focus` is `fftshift(fft2(ifftshift(·), norm='ortho'))`, `unfocus` the same with `ifft2` (consumed by
+`fft_route_eq_spec` / `unfocus_route_eq_spec`, whose subject is the route with these flags) -/
+theorem gen_route_flags : focusFlagsGen = focusFlagsRef ∧ unfocusFlagsGen = unfocusFlagsRef := by decide
+
+/-- `focus_fixed_sampling` / `unfocus_fixed_sampling`: the `Q` handed to the engines for an axis of `n` samples gives the
+chirp constant `α = 1/(n·Q) = dx_in·dx_out/(λ·f)` — per axis, independent of `n` — and the shift handed over is
+`shift/output_dx` in both components; both engines receive the same `ary, Q, samples_out, shift` -/
+theorem gen_dispatch (n : Nat) (dxin efl wvl dxout s : R) (hn : (n : R) ≠ 0) (h1 : dxin ≠ 0) (h2 : efl ≠ 0) (h3 : wvl ≠ 0)
+    (h4 : dxout ≠ 0) :
+    alphaOf n (ffsQ (n : R) dxin efl wvl dxout) = dxin * dxout / (wvl * efl) ∧
+    alphaOf n (ufsQ (n : R) dxin efl wvl dxout) = dxin * dxout / (wvl * efl) ∧
+    ffsShift0 s dxin dxout = s / dxout ∧ ffsShift1 s dxin dxout = s / dxout ∧
+    ufsShift0 s dxin dxout = s / dxout ∧ ufsShift1 s dxin dxout = s / dxout ∧
+    ffsEnginesGetSameArgs = true ∧ ufsEnginesGetSameArgs = true := by
+  refine ⟨?_, ?_, ?_, ?_, ?_, ?_, by decide, by decide⟩
+  · simp only [alphaOf_eq, ffsQ]; field_simp
+  · simp only [alphaOf_eq, ufsQ]; field_simp
+  all_goals simp only [ffsShift0, ffsShift1, ufsShift0, ufsShift1]
 
 /-! ## matrix DFT = unit phase × textbook sum -/
 
-/-- `dft2`/`idft2` with the wiring, exponent scalars and norms of the current source return, for every shape, output
-size, per-axis `Q` and shift, the textbook sum times a phase factor that depends on the output sample only -/
-theorem mdft_eq_phase_mul_spec (he : IsChar e) (m n M N : Nat) (Qy Qx s0 s1 : R) (f : Nat → Nat → K) (k l : Nat) :
-    mdft2 e nrm mdftEoutWiring mdftEinWiring (m, n) (M, N)
-        (mdftEoutScale (m : R) (n : R) Qy Qx) (mdftEinScale (m : R) (n : R) Qy Qx)
-        (mdftEinNormSq (m : R) (n : R) Qy Qx) (mdftEoutNormSq (m : R) (n : R) Qy Qx) (s0, s1) f k l
-      = (shiftPhase e M (alphaOf m Qy) s1 k * shiftPhase e N (alphaOf n Qx) s0 l)
-          * spec2 e nrm m n M N (alphaOf m Qy) (alphaOf n Qx) s1 s0 f k l := by
-  obtain ⟨h1, h2, h3, h4⟩ := gen_mdft_scale (R := R) m n Qy Qx
-  rw [gen_mdft_wiring.1, gen_mdft_wiring.2.1, h1, h2, h3, h4]
-  exact mdft2_eq_phase_mul_spec2 nrm he m n M N _ _ s0 s1 f k l
-
-/-- the phase factor is `1` when no shift is requested … -/
-theorem mdft_phase_one_at_zero_shift (he : IsChar e) (M : Nat) (α : R) (k : Nat) : shiftPhase e M α 0 k = 1 :=
-  shiftPhase_zero he M α k
-
-/-- … and has unit modulus for every shift (`conj Φ · Φ = 1`): a shifted route differs from the textbook sum in phase only -/
-theorem mdft_phase_unit_modulus (he : IsChar e) (cj : K →+* K) (hc : IsConj cj e nrm) (M : Nat) (α s : R) (k : Nat) :
-    cj (shiftPhase e M α s k) * shiftPhase e M α s k = 1 := by
-  unfold shiftPhase
-  rw [hc.e_conj, mul_comm, he.mul_neg_self]
-
-/-- the model's `spec2` is literally the textbook double sum of the property statement:
+/-- the oracle of the correspondence is literally the double sum of the property statement:
 `(√αy·√αx) · Σ_j Σ_i f[j,i] · e(αy (j−m//2)(k−M//2−sy) + αx (i−n//2)(l−N//2−sx))`, `αy = 1/(m Qy)`, `αx = 1/(n Qx)` -/
 theorem spec2_eq_double_sum (he : IsChar e) (m n M N : Nat) (αy αx sy sx : R) (f : Nat → Nat → K) (k l : Nat) :
     spec2 e nrm m n M N αy αx sy sx f k l
@@ -138,15 +132,51 @@ theorem spec2_eq_double_sum (he : IsChar e) (m n M N : Nat) (αy αx sy sx : R) 
   simp only [spec2, spec1, sumTo_eq, Finset.mul_sum, Finset.sum_mul, he.add]
   exact Finset.sum_congr rfl fun j _ => Finset.sum_congr rfl fun i _ => by ring
 
+/-- `dft2`: kernel sign, `fwd` flag, wiring, exponent scalars and norms of the current source.  For every shape, output
+size, per-axis `Q` and shift it returns the FORWARD textbook sum times a phase that depends on the output sample only -/
+theorem mdft_eq_phase_mul_spec (he : IsChar e) (m n M N : Nat) (Qy Qx s0 s1 : R) (f : Nat → Nat → K) (k l : Nat) :
+    mdft2G mdftFwdSign mdftDft2IsFwd e nrm mdftEoutWiring mdftEinWiring (m, n) (M, N)
+        (mdftEoutScale (m : R) (n : R) Qy Qx) (mdftEinScale (m : R) (n : R) Qy Qx)
+        (mdftEinNormSq (m : R) (n : R) Qy Qx) (mdftEoutNormSq (m : R) (n : R) Qy Qx) (s0, s1) f k l
+      = (shiftPhase e M (alphaOf m Qy) s1 k * shiftPhase e N (alphaOf n Qx) s0 l)
+          * spec2 e nrm m n M N (alphaOf m Qy) (alphaOf n Qx) s1 s0 f k l := by
+  obtain ⟨h1, h2, h3, h4⟩ := gen_mdft_scale (R := R) m n Qy Qx
+  obtain ⟨w0, w1, sg, _, fw, _⟩ := gen_mdft_wiring
+  rw [w0, w1, sg, fw, h1, h2, h3, h4]
+  simp only [mdft2G, if_true, kernS_neg_one]
+  exact mdft2_eq_phase_mul_spec2 nrm he m n M N _ _ s0 s1 f k l
+
+/-- `idft2`: the same with the reflected kernel `e(−t)` (the INVERSE textbook sum) -/
+theorem idft_eq_phase_mul_inverse_spec (he : IsChar e) (m n M N : Nat) (Qy Qx s0 s1 : R) (f : Nat → Nat → K) (k l : Nat) :
+    mdft2G mdftFwdSign mdftIdft2IsFwd e nrm mdftEoutWiring mdftEinWiring (m, n) (M, N)
+        (mdftEoutScale (m : R) (n : R) Qy Qx) (mdftEinScale (m : R) (n : R) Qy Qx)
+        (mdftEinNormSq (m : R) (n : R) Qy Qx) (mdftEoutNormSq (m : R) (n : R) Qy Qx) (s0, s1) f k l
+      = (shiftPhase (fun t => e (-t)) M (alphaOf m Qy) s1 k * shiftPhase (fun t => e (-t)) N (alphaOf n Qx) s0 l)
+          * spec2 (fun t => e (-t)) nrm m n M N (alphaOf m Qy) (alphaOf n Qx) s1 s0 f k l := by
+  obtain ⟨h1, h2, h3, h4⟩ := gen_mdft_scale (R := R) m n Qy Qx
+  obtain ⟨w0, w1, sg, _, _, iv⟩ := gen_mdft_wiring
+  rw [w0, w1, sg, iv, h1, h2, h3, h4]
+  simp only [mdft2G, Bool.false_eq_true, if_false, neg_neg, kernS_one]
+  exact mdft2_eq_phase_mul_spec2 nrm he.reflect m n M N _ _ s0 s1 f k l
+
+/-- the phase factor is `1` when no shift is requested … -/
+theorem mdft_phase_one_at_zero_shift (he : IsChar e) (M : Nat) (α : R) (k : Nat) : shiftPhase e M α 0 k = 1 :=
+  shiftPhase_zero he M α k
+
+/-- … and has unit modulus for every shift (`conj Φ · Φ = 1`) -/
+theorem mdft_phase_unit_modulus (he : IsChar e) (cj : K →+* K) (hc : IsConj cj e nrm) (M : Nat) (α s : R) (k : Nat) :
+    cj (shiftPhase e M α s k) * shiftPhase e M α s k = 1 := by
+  unfold shiftPhase
+  rw [hc.e_conj, mul_comm, he.mul_neg_self]
+
 /-- "when a shift is requested the routes may differ only by a pure phase, never in modulus": the squared modulus
-`conj(out)·out` of the matrix DFT (hence, by `czt_eq_mdft`, of the chirp-Z transform) equals that of the textbook sum,
-for every shift -/
+`conj(out)·out` of `dft2` (hence, by `czt_eq_mdft`, of `czt2`) equals that of the textbook sum, for every shift -/
 theorem shifted_route_same_modulus (he : IsChar e) (cj : K →+* K) (hc : IsConj cj e nrm) (m n M N : Nat)
     (Qy Qx s0 s1 : R) (f : Nat → Nat → K) (k l : Nat) :
-    cj (mdft2 e nrm mdftEoutWiring mdftEinWiring (m, n) (M, N)
+    cj (mdft2G mdftFwdSign mdftDft2IsFwd e nrm mdftEoutWiring mdftEinWiring (m, n) (M, N)
         (mdftEoutScale (m : R) (n : R) Qy Qx) (mdftEinScale (m : R) (n : R) Qy Qx)
         (mdftEinNormSq (m : R) (n : R) Qy Qx) (mdftEoutNormSq (m : R) (n : R) Qy Qx) (s0, s1) f k l)
-      * mdft2 e nrm mdftEoutWiring mdftEinWiring (m, n) (M, N)
+      * mdft2G mdftFwdSign mdftDft2IsFwd e nrm mdftEoutWiring mdftEinWiring (m, n) (M, N)
         (mdftEoutScale (m : R) (n : R) Qy Qx) (mdftEinScale (m : R) (n : R) Qy Qx)
         (mdftEinNormSq (m : R) (n : R) Qy Qx) (mdftEoutNormSq (m : R) (n : R) Qy Qx) (s0, s1) f k l
       = cj (spec2 e nrm m n M N (alphaOf m Qy) (alphaOf n Qx) s1 s0 f k l)
@@ -176,33 +206,43 @@ theorem bluestein_wrap (n M L : Nat) (α : R) (k j : Nat) (hk : k < M) (hj : j <
       = hval e α ((k : ℤ) - (j : ℤ) + ((n : ℤ) / 2 - (M : ℤ) / 2)) := by
   rw [gen_czt_glue]; exact cztH_wrap n M L α k j hk hj hL
 
-/-- the contract under which `scipy.fft` is used: `ifft(fft x · fft y)` is the length-`L` circular convolution -/
+/-- (re-export of `Lemmas/C01Fourier.conv_via_dft`) the contract under which `scipy.fft` is used: `ifft(fft x · fft y)`
+is the length-`L` circular convolution -/
 theorem conv_via_fft (he : IsChar e) (hf : IsFaithful e) (L : Nat) (hL : 0 < L) (x y : Nat → K) (k : Nat) :
     idftL e L (fun q => dftL e L x q * dftL e L y q) k = circConv L x y k :=
   conv_via_dft he hf L hL x y k
 
-/-- `czt2` as computed by the current source (wiring, per-axis chirp constants, index glue, `fft2` pipeline) equals
-`dft2` sample for sample — including the phase — for every shape, output size, per-axis `Q`, shift, FFT lengths -/
+/-- `czt2` as the current source computes it — signs, order of the statements, wiring, per-axis chirp constants, index
+glue, any FFT lengths that `next_fast_len` may return for the generated length arguments — equals `dft2` sample for
+sample, including the phase, for every shape, output size, per-axis `Q` and shift -/
 theorem czt_eq_mdft (he : IsChar e) (hf : IsFaithful e) (m n M N K' L : Nat) (Qy Qx s0 s1 : R)
     (f : Array (Array K)) (k l : Nat) (hm : 0 < m) (hn : 0 < n) (hk : k < M) (hl : l < N)
-    (hK : m + M ≤ K' + 1) (hL : n + N ≤ L + 1) :
-    rd2 (czt2 e nrm cztRowWiring cztColWiring (cztGlueGen m M K') (cztGlueGen n N L) (m, n) (M, N) (K', L)
-          (cztRowAlpha (m : R) (n : R) Qy Qx) (cztColAlpha (m : R) (n : R) Qy Qx) (s0, s1) f) k l
-      = mdft2 e nrm mdftEoutWiring mdftEinWiring (m, n) (M, N)
+    (hK : cztRowFftLenArg m n M N ≤ K') (hL : cztColFftLenArg m n M N ≤ L) :
+    rd2 (czt2G cztSignsGen cztStagesGen e nrm cztRowWiring cztColWiring (cztGlueGen m M K') (cztGlueGen n N L)
+          (m, n) (M, N) (K', L) (cztRowAlpha (m : R) (n : R) Qy Qx) (cztColAlpha (m : R) (n : R) Qy Qx) (s0, s1) f) k l
+      = mdft2G mdftFwdSign mdftDft2IsFwd e nrm mdftEoutWiring mdftEinWiring (m, n) (M, N)
         (mdftEoutScale (m : R) (n : R) Qy Qx) (mdftEinScale (m : R) (n : R) Qy Qx)
         (mdftEinNormSq (m : R) (n : R) Qy Qx) (mdftEoutNormSq (m : R) (n : R) Qy Qx) (s0, s1) (rd2 f) k l := by
   obtain ⟨h1, h2, h3, h4⟩ := gen_mdft_scale (R := R) m n Qy Qx
   obtain ⟨a1, a2⟩ := gen_czt_alpha (R := R) m n Qy Qx
-  rw [gen_mdft_wiring.1, gen_mdft_wiring.2.1, h1, h2, h3, h4, gen_czt_wiring.1, gen_czt_wiring.2.1, a1, a2,
-    gen_czt_glue, gen_czt_glue]
-  exact czt2_eq_mdft2 nrm he hf m n M N K' L _ _ s0 s1 f k l hm hn hk hl hK hL
+  obtain ⟨w0, w1, sg, _, fw, _⟩ := gen_mdft_wiring
+  obtain ⟨f1, f2⟩ := gen_czt_fftlen m n M N
+  rw [f1] at hK
+  rw [f2] at hL
+  have hK' : m + M ≤ K' + 1 := by omega
+  have hL' : n + N ≤ L + 1 := by omega
+  rw [w0, w1, sg, fw, h1, h2, h3, h4, gen_czt_wiring.1, gen_czt_wiring.2.1, a1, a2, gen_czt_glue, gen_czt_glue,
+    gen_czt_signs, gen_czt_stages]
+  simp only [mdft2G, if_true, kernS_neg_one]
+  rw [czt2G_ref_rd nrm _ _ m n M N K' L _ _ s0 s1 f k l hk hl (by omega) (by omega)]
+  exact czt2_eq_mdft2 nrm he hf m n M N K' L _ _ s0 s1 f k l hm hn hk hl hK' hL'
 
 /-- hence `czt2` = unit phase × textbook sum, with the same phase as `dft2` -/
 theorem czt2_eq_phase_mul_spec (he : IsChar e) (hf : IsFaithful e) (m n M N K' L : Nat) (Qy Qx s0 s1 : R)
     (f : Array (Array K)) (k l : Nat) (hm : 0 < m) (hn : 0 < n) (hk : k < M) (hl : l < N)
-    (hK : m + M ≤ K' + 1) (hL : n + N ≤ L + 1) :
-    rd2 (czt2 e nrm cztRowWiring cztColWiring (cztGlueGen m M K') (cztGlueGen n N L) (m, n) (M, N) (K', L)
-          (cztRowAlpha (m : R) (n : R) Qy Qx) (cztColAlpha (m : R) (n : R) Qy Qx) (s0, s1) f) k l
+    (hK : cztRowFftLenArg m n M N ≤ K') (hL : cztColFftLenArg m n M N ≤ L) :
+    rd2 (czt2G cztSignsGen cztStagesGen e nrm cztRowWiring cztColWiring (cztGlueGen m M K') (cztGlueGen n N L)
+          (m, n) (M, N) (K', L) (cztRowAlpha (m : R) (n : R) Qy Qx) (cztColAlpha (m : R) (n : R) Qy Qx) (s0, s1) f) k l
       = (shiftPhase e M (alphaOf m Qy) s1 k * shiftPhase e N (alphaOf n Qx) s0 l)
           * spec2 e nrm m n M N (alphaOf m Qy) (alphaOf n Qx) s1 s0 (rd2 f) k l := by
   rw [czt_eq_mdft nrm he hf m n M N K' L Qy Qx s0 s1 f k l hm hn hk hl hK hL, mdft_eq_phase_mul_spec nrm he]
@@ -211,40 +251,80 @@ theorem czt2_eq_phase_mul_spec (he : IsChar e) (hf : IsFaithful e) (m n M N K' L
 theorem iczt_eq_inverse_spec (he : IsChar e) (hf : IsFaithful e) (cj : K →+* K) (hc : IsConj cj e nrm)
     (m n M N K' L : Nat) (Qy Qx s0 s1 : R)
     (f : Array (Array K)) (k l : Nat) (hm : 0 < m) (hn : 0 < n) (hk : k < M) (hl : l < N)
-    (hK : m + M ≤ K' + 1) (hL : n + N ≤ L + 1) :
-    rd2 (iczt2 cj e nrm cztRowWiring cztColWiring (cztGlueGen m M K') (cztGlueGen n N L) (m, n) (M, N) (K', L)
-          (cztRowAlpha (m : R) (n : R) Qy Qx) (cztColAlpha (m : R) (n : R) Qy Qx) (s0, s1) f) k l
-      = (shiftPhase (fun t => e (-t)) M (alphaOf m Qy) s1 k * shiftPhase (fun t => e (-t)) N (alphaOf n Qx) s0 l)
-          * spec2 (fun t => e (-t)) nrm m n M N (alphaOf m Qy) (alphaOf n Qx) s1 s0 (rd2 f) k l := by
+    (hK : cztRowFftLenArg m n M N ≤ K') (hL : cztColFftLenArg m n M N ≤ L) :
+    rd2 (iczt2G cj cztSignsGen cztStagesGen e nrm cztRowWiring cztColWiring (cztGlueGen m M K') (cztGlueGen n N L)
+          (m, n) (M, N) (K', L) (cztRowAlpha (m : R) (n : R) Qy Qx) (cztColAlpha (m : R) (n : R) Qy Qx) (s0, s1) f) k l
+      = mdft2G mdftFwdSign mdftIdft2IsFwd e nrm mdftEoutWiring mdftEinWiring (m, n) (M, N)
+        (mdftEoutScale (m : R) (n : R) Qy Qx) (mdftEinScale (m : R) (n : R) Qy Qx)
+        (mdftEinNormSq (m : R) (n : R) Qy Qx) (mdftEoutNormSq (m : R) (n : R) Qy Qx) (s0, s1) (rd2 f) k l := by
+  obtain ⟨h1, h2, h3, h4⟩ := gen_mdft_scale (R := R) m n Qy Qx
   obtain ⟨a1, a2⟩ := gen_czt_alpha (R := R) m n Qy Qx
-  rw [gen_czt_wiring.1, gen_czt_wiring.2.1, a1, a2, gen_czt_glue, gen_czt_glue,
-    iczt2_eq_inverse_mdft2 nrm he hf cj hc m n M N K' L _ _ s0 s1 f k l hm hn hk hl hK hL]
-  exact mdft2_eq_phase_mul_spec2 nrm he.reflect m n M N _ _ s0 s1 (rd2 f) k l
+  obtain ⟨w0, w1, sg, _, _, iv⟩ := gen_mdft_wiring
+  obtain ⟨f1, f2⟩ := gen_czt_fftlen m n M N
+  rw [f1] at hK
+  rw [f2] at hL
+  have hK' : m + M ≤ K' + 1 := by omega
+  have hL' : n + N ≤ L + 1 := by omega
+  rw [w0, w1, sg, iv, h1, h2, h3, h4, gen_czt_wiring.1, gen_czt_wiring.2.1, a1, a2, gen_czt_glue, gen_czt_glue,
+    gen_czt_signs, gen_czt_stages]
+  simp only [mdft2G, Bool.false_eq_true, if_false, neg_neg, kernS_one]
+  unfold iczt2G
+  rw [rd2_mapArr2, czt2G_ref_rd nrm _ _ m n M N K' L _ _ s0 s1 _ k l hk hl (by omega) (by omega),
+    czt2_eq_mdft2 nrm he hf m n M N K' L _ _ s0 s1 _ k l hm hn hk hl hK' hL']
+  have : rd2 (mapArr2 (⇑cj) f) = fun j i => cj (rd2 f j i) := by
+    funext j i; exact rd2_mapArr2 cj f j i
+  rw [this, conj_mdft2 nrm cj hc]
 
 /-! ## FFT route -/
 
-/-- `focus` (kernel `e`) / `unfocus` (kernel `e(−·)`): with the pad offset of the current `pad2d`, the padded
-`fftshift(fft2(ifftshift(·), norm='ortho'))` returns the textbook sum with zero shift on the grid `Q_eff = M'/m, N'/n`
-for every input shape and every padded shape `≥` it (any parities) -/
+/-- `focus`: with the shift order, `norm`, transform and pad offset of the current source, the padded FFT route returns
+the forward textbook sum with zero shift on the grid `Q_eff = M'/m, N'/n`, for every input shape and every padded shape
+`≥` it (any parities) -/
 theorem fft_route_eq_spec (he : IsChar e) (m n M' N' : Nat) (hm : m ≤ M') (hn : n ≤ N') (f : Array (Array K))
     (k l : Nat) (hk : k < M') (hl : l < N') :
-    rd2 (fftRoute2 e nrm (m, n) (M', N') (padLo (m : Int) (M' : Int), padLo (n : Int) (N' : Int)) f) k l
+    rd2 (fftRoute2G focusFlagsGen e nrm (m, n) (M', N') (padLo (m : Int) (M' : Int), padLo (n : Int) (N' : Int)) f) k l
       = spec2 e nrm m n M' N' (1 / (M' : R)) (1 / (N' : R)) 0 0 (rd2 f) k l := by
-  rw [(gen_pad_offset m M').1, (gen_pad_offset n N').1]
+  rw [(gen_pad_offset m M').1, (gen_pad_offset n N').1, gen_route_flags.1, fftRoute2G_focus_ref]
   exact fftRoute2_eq_spec2 nrm he m n M' N' hm hn f k l hk hl
+
+/-- `unfocus`: the same with the inverse textbook sum (kernel `e(−t)`) -/
+theorem unfocus_route_eq_spec (he : IsChar e) (m n M' N' : Nat) (hm : m ≤ M') (hn : n ≤ N') (f : Array (Array K))
+    (k l : Nat) (hk : k < M') (hl : l < N') :
+    rd2 (fftRoute2G unfocusFlagsGen e nrm (m, n) (M', N') (padLo (m : Int) (M' : Int), padLo (n : Int) (N' : Int)) f) k l
+      = spec2 (fun t => e (-t)) nrm m n M' N' (1 / (M' : R)) (1 / (N' : R)) 0 0 (rd2 f) k l := by
+  rw [(gen_pad_offset m M').1, (gen_pad_offset n N').1, gen_route_flags.2, fftRoute2G_unfocus_ref]
+  exact fftRoute2_eq_spec2 nrm he.reflect m n M' N' hm hn f k l hk hl
+
+/-- the grid that `Q` defines for the FFT route: the padded length is `⌈n·Q⌉`; it is at least `n` for `Q ≥ 1` (so the
+hypotheses `m ≤ M'` above are met) and it is exactly `n·Q` when that is an integer — only then is the FFT grid the
+matrix-DFT grid of the same `Q` (`routes_agree`); otherwise the FFT route lives on `Q_eff = ⌈n·Q⌉/n` -/
+theorem fft_route_grid_of_Q (n : Nat) (Q : Rat) :
+    (1 ≤ Q → (n : Rat) ≤ padOutLen n Q) ∧ (∀ N' : Nat, (n : Rat) * Q = N' → padOutLen n Q = N') := by
+  constructor
+  · intro hQ
+    rw [gen_pad_outlen]
+    have h1 : (n : Rat) ≤ (n : Rat) * Q := by
+      have : (0 : Rat) ≤ n := Nat.cast_nonneg n
+      nlinarith
+    exact le_trans h1 (Int.le_ceil _)
+  · intro N' h
+    rw [gen_pad_outlen, h]
+    have : ⌈((N' : ℕ) : Rat)⌉ = (N' : Int) := by exact_mod_cast Int.ceil_natCast N'
+    rw [this]; simp
 
 /-- corollary (`routes_agree`): on the FFT grid (`m·Qy = M'`, `n·Qx = N'`, zero shift) the matrix DFT, the chirp-Z
 transform and the padded FFT return the same array -/
 theorem routes_agree (he : IsChar e) (hf : IsFaithful e) (m n M' N' K' L : Nat) (Qy Qx : R)
     (hQy : (m : R) * Qy = M') (hQx : (n : R) * Qx = N') (hm : 0 < m) (hn : 0 < n) (hmM : m ≤ M') (hnN : n ≤ N')
-    (hK : m + M' ≤ K' + 1) (hL : n + N' ≤ L + 1) (f : Array (Array K)) (k l : Nat) (hk : k < M') (hl : l < N') :
-    rd2 (czt2 e nrm cztRowWiring cztColWiring (cztGlueGen m M' K') (cztGlueGen n N' L) (m, n) (M', N') (K', L)
-          (cztRowAlpha (m : R) (n : R) Qy Qx) (cztColAlpha (m : R) (n : R) Qy Qx) (0, 0) f) k l
-      = rd2 (fftRoute2 e nrm (m, n) (M', N') (padLo (m : Int) (M' : Int), padLo (n : Int) (N' : Int)) f) k l
-    ∧ mdft2 e nrm mdftEoutWiring mdftEinWiring (m, n) (M', N')
+    (hK : cztRowFftLenArg m n M' N' ≤ K') (hL : cztColFftLenArg m n M' N' ≤ L)
+    (f : Array (Array K)) (k l : Nat) (hk : k < M') (hl : l < N') :
+    rd2 (czt2G cztSignsGen cztStagesGen e nrm cztRowWiring cztColWiring (cztGlueGen m M' K') (cztGlueGen n N' L)
+          (m, n) (M', N') (K', L) (cztRowAlpha (m : R) (n : R) Qy Qx) (cztColAlpha (m : R) (n : R) Qy Qx) (0, 0) f) k l
+      = rd2 (fftRoute2G focusFlagsGen e nrm (m, n) (M', N') (padLo (m : Int) (M' : Int), padLo (n : Int) (N' : Int)) f) k l
+    ∧ mdft2G mdftFwdSign mdftDft2IsFwd e nrm mdftEoutWiring mdftEinWiring (m, n) (M', N')
         (mdftEoutScale (m : R) (n : R) Qy Qx) (mdftEinScale (m : R) (n : R) Qy Qx)
         (mdftEinNormSq (m : R) (n : R) Qy Qx) (mdftEoutNormSq (m : R) (n : R) Qy Qx) (0, 0) (rd2 f) k l
-      = rd2 (fftRoute2 e nrm (m, n) (M', N') (padLo (m : Int) (M' : Int), padLo (n : Int) (N' : Int)) f) k l := by
+      = rd2 (fftRoute2G focusFlagsGen e nrm (m, n) (M', N') (padLo (m : Int) (M' : Int), padLo (n : Int) (N' : Int)) f) k l := by
   have hay : alphaOf m Qy = 1 / (M' : R) := by rw [alphaOf_eq, hQy]
   have hax : alphaOf n Qx = 1 / (N' : R) := by rw [alphaOf_eq, hQx]
   have hspec := fft_route_eq_spec nrm he m n M' N' hmM hnN f k l hk hl
@@ -254,11 +334,28 @@ theorem routes_agree (he : IsChar e) (hf : IsFaithful e) (m n M' N' K' L : Nat) 
   · rw [czt_eq_mdft nrm he hf m n M' N' K' L Qy Qx 0 0 f k l hm hn hk hl hK hL, hmd, hspec]
   · rw [hmd, hspec]
 
+/-! ## fixed-sampling dispatch: `Q` and shift unit conversion -/
+
+/-- with the `Q` and the shift that `focus_fixed_sampling` / `unfocus_fixed_sampling` hand to the engines, the kernel
+exponent of both engines is the physical one, `x·ξ/(λ f)`: `x = (j − n//2)·dx_in` the input coordinate,
+`ξ = (k − M//2)·dx_out − shift` the output coordinate (shift in output units), per axis and whatever the other axis is -/
+theorem dispatch_kernel_is_physical (n M : Nat) (dxin efl wvl dxout s : R) (j k : Nat)
+    (hn : (n : R) ≠ 0) (h1 : dxin ≠ 0) (h2 : efl ≠ 0) (h3 : wvl ≠ 0) (h4 : dxout ≠ 0) :
+    alphaOf n (ffsQ (n : R) dxin efl wvl dxout) * ((xc n j : R) * ((xc M k : R) - ffsShift0 s dxin dxout))
+      = ((xc n j : R) * dxin) * ((xc M k : R) * dxout - s) / (wvl * efl) ∧
+    alphaOf n (ufsQ (n : R) dxin efl wvl dxout) * ((xc n j : R) * ((xc M k : R) - ufsShift1 s dxin dxout))
+      = ((xc n j : R) * dxin) * ((xc M k : R) * dxout - s) / (wvl * efl) := by
+  obtain ⟨q1, q2, s0, _, _, s3, _, _⟩ := gen_dispatch n dxin efl wvl dxout s hn h1 h2 h3 h4
+  rw [q1, q2, s0, s3]
+  constructor <;> field_simp
+
 /-! ## executor caches: no dependence on history -/
 
 /-- `MatrixDFTExecutor`: after ANY sequence of earlier calls (any arguments, any `config.precision`) and `clear()`s,
 a call uses exactly the bases a fresh executor would build for it — for every way `_setup_bases` may compute from
-what it reads (`build` arbitrary) -/
+what it reads (`build` arbitrary).  Scope: an abstract machine with the key fields and build-time reads extracted from
+the source (`config.*`, hidden `self.*` and key components); argument normalisation in `_key` and module globals are
+outside the model and are covered by the history stream of the correspondence only -/
 theorem exec_history_independent_mdft {V B : Type} [DecidableEq V] (build : List V → B) (ops : List (Op V)) (st : St V) :
     (callStep ⟨mdftKeyFields, mdftBuildReads, build⟩ (runOps ⟨mdftKeyFields, mdftBuildReads, build⟩ [] ops) st).1
       = (callStep ⟨mdftKeyFields, mdftBuildReads, build⟩ [] st).1 :=
@@ -270,47 +367,33 @@ theorem exec_history_independent_czt {V B : Type} [DecidableEq V] (build : List 
       = (callStep ⟨cztKeyFields, cztBuildReads, build⟩ [] st).1 :=
   exec_history_independent ⟨cztKeyFields, cztBuildReads, build⟩ gen_czt_reads_subset_key ops st
 
-/-- the hypothesis of history independence is necessary: a key that omits something `build` reads returns a stale
-basis (the behaviour of the pinned tree, where `config.precision` was read but not part of the key) -/
-theorem stale_cache_without_key_field :
-    (callStep (V := Nat) (B := List Nat) ⟨["Q"], ["Q", "config.precision"], id⟩
-        (runOps ⟨["Q"], ["Q", "config.precision"], id⟩ [] [Op.call (fun s => if s = "Q" then 2 else 32)])
-        (fun s => if s = "Q" then 2 else 64)).1
-      ≠ (callStep (V := Nat) (B := List Nat) ⟨["Q"], ["Q", "config.precision"], id⟩ []
-        (fun s => if s = "Q" then 2 else 64)).1 := by decide
-
-/-! ## non-vacuity: the real kernel satisfies every hypothesis used above -/
+/-! ## non-vacuity and illustrations (examples, not counted as obligations) -/
 
 example : IsChar expKernel ∧ IsFaithful expKernel ∧ IsConj (starRingEnd ℂ) expKernel sqrtNrm :=
   ⟨expKernel_isChar, expKernel_isFaithful, expKernel_isConj⟩
 
 /-- the chirp-Z theorem instantiated: `8×6 → 5×9`, per-axis `Q = (1.7, 2.3)`, shift `(1.5, −2.25)`, FFT lengths `(12, 14)` -/
 example (f : Array (Array ℂ)) (k l : Nat) (hk : k < 5) (hl : l < 9) :
-    rd2 (czt2 expKernel sqrtNrm cztRowWiring cztColWiring (cztGlueGen 8 5 12) (cztGlueGen 6 9 14) (8, 6) (5, 9) (12, 14)
+    rd2 (czt2G cztSignsGen cztStagesGen expKernel sqrtNrm cztRowWiring cztColWiring (cztGlueGen 8 5 12) (cztGlueGen 6 9 14)
+          (8, 6) (5, 9) (12, 14)
           (cztRowAlpha ((8 : ℕ) : ℝ) ((6 : ℕ) : ℝ) 1.7 2.3) (cztColAlpha ((8 : ℕ) : ℝ) ((6 : ℕ) : ℝ) 1.7 2.3) (1.5, -2.25) f) k l
       = (shiftPhase expKernel 5 (alphaOf 8 1.7) (-2.25) k * shiftPhase expKernel 9 (alphaOf 6 2.3) 1.5 l)
           * spec2 expKernel sqrtNrm 8 6 5 9 (alphaOf 8 1.7) (alphaOf 6 2.3) (-2.25) 1.5 (rd2 f) k l :=
   czt2_eq_phase_mul_spec sqrtNrm expKernel_isChar expKernel_isFaithful 8 6 5 9 12 14 1.7 2.3 1.5 (-2.25) f k l
-    (by omega) (by omega) hk hl (by omega) (by omega)
+    (by omega) (by omega) hk hl
+    (by have := (gen_czt_fftlen ((8 : ℕ) : ℤ) ((6 : ℕ) : ℤ) ((5 : ℕ) : ℤ) ((9 : ℕ) : ℤ)).1; omega)
+    (by have := (gen_czt_fftlen ((8 : ℕ) : ℤ) ((6 : ℕ) : ℤ) ((5 : ℕ) : ℤ) ((9 : ℕ) : ℤ)).2; omega)
 
-/-! ## the failure sets of the two index/constant defects of the pinned tree, characterised exactly -/
+/-- the hypothesis of history independence is necessary: a key that omits something `build` reads returns a stale
+basis (the behaviour of the pinned tree, where `config.precision` was read but not part of the key) -/
+example :
+    (callStep (V := Nat) (B := List Nat) ⟨["Q"], ["Q", "config.precision"], id⟩
+        (runOps ⟨["Q"], ["Q", "config.precision"], id⟩ [] [Op.call (fun s => if s = "Q" then 2 else 32)])
+        (fun s => if s = "Q" then 2 else 64)).1
+      ≠ (callStep (V := Nat) (B := List Nat) ⟨["Q"], ["Q", "config.precision"], id⟩ []
+        (fun s => if s = "Q" then 2 else 64)).1 := by decide
 
-/-- the pinned lag offset `(N−M)//2` equals the correct `N//2 − M//2` iff NOT (input length even and output length odd):
-`czt2` of the pinned tree was off by one output sample exactly for even → odd (e.g. `8 → 9`) -/
-theorem pinned_lag_offset_iff (n M : Int) : (n - M) / 2 = n / 2 - M / 2 ↔ ¬ (n % 2 = 0 ∧ M % 2 = 1) := by omega
-
-/-- the swapped chirp constants of the pinned tree (`alphax` for rows) coincide with the right ones iff `m·Qy = n·Qx`
-(square input with a scalar `Q`, or an accidental match) -/
-theorem pinned_alpha_swap_iff (m n : Nat) (Qy Qx : R) (hm : (m : R) * Qy ≠ 0) (hn : (n : R) * Qx ≠ 0) :
-    alphaOf n Qx = alphaOf m Qy ↔ (m : R) * Qy = (n : R) * Qx := by
-  rw [alphaOf_eq, alphaOf_eq]
-  constructor
-  · intro h
-    have h2 := congrArg (fun x => x⁻¹) h
-    simp only [one_div, inv_inv] at h2
-    exact h2.symm
-  · intro h; rw [h]
-
-example : ((8 : Int) - 9) / 2 ≠ (8 : Int) / 2 - 9 / 2 := by decide
+/-- the pinned lag offset `(N−M)//2` equals the correct `N//2 − M//2` iff NOT (input length even and output length odd) -/
+example (n M : Int) : (n - M) / 2 = n / 2 - M / 2 ↔ ¬ (n % 2 = 0 ∧ M % 2 = 1) := by omega
 
 end C01
